@@ -9,6 +9,9 @@ model's `{:+06.3f}` on exact rationals; random user dictionaries (random subsets
 bogus tags, malformed values) go through the real tags2preene(VERBOSE=True) and the model; everything is
 compared exactly.  (c) direct oracles state the property on the implementation's outputs.
 """
+import os
+for _v in ('OPENBLAS_NUM_THREADS', 'OMP_NUM_THREADS', 'MKL_NUM_THREADS'):
+    os.environ.setdefault(_v, '1')      # bit-exact comparisons: no thread-scheduling effects in BLAS/LAPACK reductions
 import ast, os, fractions
 import numpy as np
 from . import _c13_common as cm
@@ -240,7 +243,9 @@ def _oracle_t2p(ctx, label, d, user, result, seen, limb_out):
         for i, cls in enumerate(classes):
             got = (thermo[pn][i], thermo[en][i])
             given = by_class.get((ty, i), [])
-            if len(given) == 1:
+            if len(given) == 1 and len(user[given[0]]) != 2:
+                pass        # malformed value that the call survived: left to the model/implementation comparison
+            elif len(given) == 1:
                 want = user[given[0]]
                 if not (cm.same_bits(np.float64(got[0]), np.float64(want[0])) and cm.same_bits(np.float64(got[1]), np.float64(want[1]))):
                     ctx.violation('single-member-not-reproduced:' + ty, 'data given under one member tag is not what comes out',
